@@ -85,6 +85,15 @@ TFront ==
            /\ \A v \in vs : IsCRep(E.base, v, WS) /\ SmallerCReps(E.base, v, WS) = {} \* only Pareto-minimal c-representations
            /\ \A eta \in ParetoMin(CReps(E.base, WS, U)) :                          \* all of them (up to the bound)
                   \E v \in vs : \A k \in DOMAIN E.base : v[k] = eta[k]
+(* further PreOCF behaviour beyond the listed properties: is_ocf (every rank computed and non-negative) and        *)
+(* conditionalize_existing_ranks (the worlds of the condition with their CACHED ranks, nothing is computed)           *)
+TIsOcf ==
+    /\ IsEvent("isocf") /\ Cur.o \in DOMAIN objs /\ UNCHANGED <<objs, disk>>
+    /\ Cur.result = (\A w \in Worlds(Cur.o) : objs[Cur.o].ranks[w] # NoRank /\ objs[Cur.o].ranks[w] >= 0)
+TCondExisting ==
+    /\ IsEvent("condexist") /\ Cur.o \in DOMAIN objs /\ UNCHANGED <<objs, disk>>
+    /\ {<<Cur.result[i][1], Cur.result[i][2]>> : i \in DOMAIN Cur.result} = {<<w, objs[Cur.o].ranks[w]>> : w \in ToSet(Cur.worlds)}
+    /\ Len(Cur.result) = Cardinality(ToSet(Cur.worlds))
 TSave ==
     /\ IsEvent("save") /\ Cur.o \in DOMAIN objs
     /\ IF Cur.ok THEN Save(Cur.o, Cur.file) ELSE SaveFail(Cur.o, Cur.file)
@@ -92,7 +101,7 @@ TSave ==
 TLoad == IsEvent("load") /\ Load(Cur.file) /\ Cur.o = Len(objs') /\ RanksAre(Cur.o, Cur.ranks)
 TSame == IsEvent("same") /\ Cur.a = Cur.b /\ UNCHANGED <<objs, disk>>
 
-TMatch == TConstruct \/ TRank \/ TAll \/ TFRank \/ TAccept \/ TZop \/ TCop \/ TFront \/ TSave \/ TLoad \/ TSame
+TMatch == TConstruct \/ TRank \/ TAll \/ TFRank \/ TAccept \/ TZop \/ TCop \/ TFront \/ TIsOcf \/ TCondExisting \/ TSave \/ TLoad \/ TSame
 
 Reject ==
     /\ t > 0 /\ l <= Len(Ev) /\ ~ENABLED TMatch
